@@ -660,12 +660,508 @@ def run_fp(E):
 
 
 
+# ============================================================================================ points
+class PointIO(object):
+    """struct-level access to one point type; coordinates on the wire are (u, v) (see codec.py)"""
+    reps = ("affine",)
+
+    def __init__(self, E, pre, label, pc):
+        self.E = E
+        self.R = E.R
+        self.pre = pre                 # function prefix: ep, g1, ep2, g2, eb, ed
+        self.label = label             # kind of parameter set (key component); the set's name goes into the description
+        self.setname = label
+        self.pc = pc
+        self.read = pre + "_read_bin"
+        self.write = pre + "_write_bin"
+        self.size = pre + "_size_bin"
+        self.P = self.new()
+        self.Q = self.new()
+
+    def new(self):
+        return self.R.mem(self.sz, 0xAA)
+
+    def poison(self, P):
+        import ctypes
+        ctypes.memset(P, self.E.rng.randrange(1, 256), self.sz)
+
+
+class EpIO(PointIO):
+    reps = ("affine", "projc", "jacob")
+
+    def __init__(self, E, pre, label, pc, p):
+        self.sz = E.R.K["sizeof_ep_st"]
+        self.p = p
+        PointIO.__init__(self, E, pre, label, pc)
+
+    def put(self, P, pt, rep="affine"):
+        R, K, p = self.R, self.R.K, self.p
+        if pt is None:
+            if rep == "affine":
+                R.ep_put(P, 0, 0, 0, K["BASIC"])
+            else:
+                R.ep_put(P, self.E.rng.randrange(p), self.E.rng.randrange(p), 0, K["PROJC"] if rep == "projc" else K["JACOB"])
+            return
+        x, y = pt
+        if rep == "affine":
+            R.ep_put(P, x, y, 1, K["BASIC"])
+        else:
+            z = self.E.rng.randrange(2, p)
+            if rep == "projc":
+                R.ep_put(P, x * z, y * z, z, K["PROJC"])
+            else:
+                R.ep_put(P, x * z * z, y * z * z * z, z, K["JACOB"])
+
+    def get(self, P):
+        """-> (decoded, structurally_ok): decoded = ('inf',) | ('pt', u, v) | ('bad', why)"""
+        R, K, p = self.R, self.R.K, self.p
+        x, y, z, coord, canon = R.ep_get(P)
+        if z == 0:
+            return ("inf",), canon
+        if coord == K["BASIC"]:
+            return ("pt", x, y), canon and z == 1
+        zi = pow(z, -1, p)
+        if coord == K["PROJC"]:
+            return ("pt", x * zi % p, y * zi % p), canon
+        if coord == K["JACOB"]:
+            return ("pt", x * zi * zi % p, y * zi * zi * zi % p), canon
+        return ("bad", "coord=%d" % coord), False
+
+
+def read_case(io, cls, bs, member, note=None):
+    """decode arbitrary bytes: library accepts <=> model accepts; accepted objects are valid and re-encode to bs"""
+    E = io.E
+    ctx, R = E.ctx, E.R
+
+    def body(k):
+        m = io.pc.decode(bs)
+        io.poison(io.P)
+        pb = E.put(bs)
+        n = len(bs)
+        r = R.call(io.read, io.P, pb, n)
+        if m is None:
+            if not ctx.check(r.caught, k + "|accepted", {"decoded": repr(io.get(io.P))[:300]}):
+                return
+            ctx.check(R.get(pb, n) == bs, k + "|input-modified")
+            return
+        if r.caught:
+            # a canonical encoding of a valid object was refused: a violation when the object is known to be a group member
+            if member(m):
+                ctx.check(False, k + "|rejected", {"err": r.err, "model": repr(m)[:300]})
+            else:
+                ctx.check(True)
+                ctx.add("valid_non_member_rejected", 1)
+            return
+        got, ok = io.get(io.P)
+        ctx.check(got == m, k + "|decoded-value", {"got": repr(got)[:400], "exp": repr(m)[:400]})
+        ctx.check(ok, k + "|decoded-not-normal", {"got": repr(got)[:300]})
+        ctx.check(R.get(pb, n) == bs, k + "|input-modified")
+        out = E.mem(n)
+        w = R.call(io.write, out, n, io.P, 1 if n == io.pc.len_pack else 0)
+        ctx.check(not w.caught and R.get(out, n) == bs, k + "|reencode", {"caught": w.caught, "got": R.get(out, n).hex()})
+    d = {"bytes": bs[:140].hex(), "len": len(bs), "set": io.setname}
+    if note:
+        d["note"] = note
+    E.case("%s|%s|%s" % (io.read, io.label, cls), d, body)
+
+
+def write_case(io, cls, pt, rep):
+    """encode a valid object: size_bin, exact / short / long buffers, canonical bytes, decode(encode(x)) == x"""
+    E = io.E
+    ctx, R, rng = E.ctx, E.R, E.rng
+
+    def body(k):
+        for pack in (0, 1):
+            kk = k + ("|pack" if pack else "|full")
+            io.poison(io.P)
+            io.put(io.P, pt, rep)
+            snap = R.get(io.P, io.sz)
+            exp = io.pc.encode(pt, pack)
+            n = len(exp)
+            r = R.call(io.size, io.P, pack)
+            ctx.check(not r.caught and r.r == n, kk + "|size_bin", {"got": r.r, "exp": n, "caught": r.caught})
+            out = E.mem(n)
+            w = R.call(io.write, out, n, io.P, pack)
+            if ctx.check(not w.caught, kk + "|unexpected-error", {"err": w.err}):
+                got = R.get(out, n)
+                ctx.check(got == exp, kk + "|value", {"got": got.hex(), "exp": exp.hex()})
+                io.poison(io.Q)
+                rr = R.call(io.read, io.Q, out, n)
+                if ctx.check(not rr.caught, kk + "|roundtrip-rejected", {"err": rr.err}):
+                    dec, ok = io.get(io.Q)
+                    want = ("inf",) if pt is None else ("pt", pt[0], pt[1])
+                    ctx.check(dec == want and ok, kk + "|roundtrip", {"got": repr(dec)[:300], "exp": repr(want)[:300], "ok": ok})
+            o2 = E.mem(n - 1)
+            w = R.call(io.write, o2, n - 1, io.P, pack)
+            ctx.check(w.caught, kk + "|short-buffer-accepted", {"len": n - 1})
+            ln = n + rng.randrange(1, 12)
+            o3 = E.mem(ln)
+            w = R.call(io.write, o3, ln, io.P, pack)
+            ctx.check(not w.caught and R.get(o3, n) == exp, kk + "|long-buffer", {"len": ln, "caught": w.caught})
+            ctx.check(R.get(io.P, io.sz) == snap, kk + "|input-modified")
+    E.case("%s|%s|%s|%s" % (io.write, io.label, cls, rep),
+           {"pt": repr(pt)[:300] if pt is not None else "neutral", "rep": rep, "set": io.setname}, body)
+
+
+def point_suite(io, members, others, special, cof1, field_top, coord_vals, quick):
+    """the structure-aware byte-string workload for one point type on one parameter set.
+    members: model points known to be in the prime-order subgroup; others: valid points without that knowledge;
+    special: list of (class, bytes) directed strings; coord_vals(kind) -> [(wire bytes of one coordinate, class)]"""
+    E = io.E
+    rng = E.rng
+    pc = io.pc
+    C = pc.C
+    known = set()
+    for P in members:
+        known.add(P)
+        known.add((P[0], C.neg_v(P[0], P[1])))
+
+    def member(m):
+        return cof1 or m[0] == "inf" or (m[1], m[2]) in known
+    n = pc.n
+    # ---- encoders
+    for i, P in enumerate([None] + members + others):
+        cls = "neutral" if P is None else ("member" if i <= len(members) else "on-curve")
+        for rep in io.reps:
+            if E.mine():
+                write_case(io, cls, P, rep)
+    # ---- decoders: valid encodings and their neighbourhood
+    base = (members + others)
+    for i, P in enumerate(base):
+        full, pack = pc.encode(P, 0), pc.encode(P, 1)
+        negP = (P[0], C.neg_v(P[0], P[1]))
+        mem_cls = "member" if i < len(members) else "on-curve"
+        if E.mine():
+            read_case(io, "valid-full|" + mem_cls, full, member)
+        if E.mine():
+            read_case(io, "valid-pack|" + mem_cls, pack, member)
+        if E.mine():                                  # flipped sign bit: the other point with the same first coordinate
+            read_case(io, "sign-flipped", bytes([pack[0] ^ 1]) + pack[1:], member)
+        if E.mine():
+            read_case(io, "valid-full|negated", pc.encode(negP, 0), member)
+        # second coordinate off the curve
+        for how in range(3):
+            if not E.mine():
+                continue
+            v = bytearray(full[1 + n:])
+            if how == 0:
+                v[-1] ^= 1
+            elif how == 1:
+                v[rng.randrange(n)] ^= 1 << rng.randrange(8)
+            else:
+                v = bytearray(rng.getrandbits(8 * n).to_bytes(n, "big"))
+            read_case(io, "off-curve-v", full[:1 + n] + bytes(v), member)
+        # single bit flips anywhere
+        for _ in range(4 if quick else 16):
+            if E.mine():
+                w = bytearray(full)
+                w[rng.randrange(len(w))] ^= 1 << rng.randrange(8)
+                read_case(io, "bitflip-full", bytes(w), member)
+            if E.mine():
+                w = bytearray(pack)
+                w[rng.randrange(1, len(w))] ^= 1 << rng.randrange(8)
+                read_case(io, "bitflip-pack", bytes(w), member)
+        if i >= (2 if quick else 6):
+            continue
+        # every tag byte at the three legal lengths
+        for tag in range(256):
+            if E.mine():
+                read_case(io, "tag|full-length", bytes([tag]) + full[1:], member)
+            if E.mine():
+                read_case(io, "tag|pack-length", bytes([tag]) + pack[1:], member)
+            if i == 0 and E.mine():
+                read_case(io, "tag|one-byte", bytes([tag]), member)
+        # every length 0 .. max + 2
+        for ln in range(0, pc.len_full + 3):
+            ext = rng.getrandbits(8 * 3).to_bytes(3, "big")
+            cands = [("len|full-prefix", (full + ext)[:ln]), ("len|pack-prefix", (pack + bytes(len(full)))[:ln]),
+                     ("len|neutral-trailing", bytes(ln)), ("len|random", rng.getrandbits(8 * ln).to_bytes(ln, "big") if ln else b"")]
+            for c, bs in cands:
+                if E.mine():
+                    read_case(io, c, bs, member)
+        # coordinate boundary values in either position
+        for cb, c in coord_vals("u"):
+            for tag in (2, 3):
+                if E.mine():
+                    read_case(io, "u=" + c, bytes([tag]) + cb, member)
+            if E.mine():
+                read_case(io, "u=" + c, b"\x04" + cb + full[1 + n:], member)
+            # with the matching second coordinate when there is one
+            u = pc.F.dec(cb)
+            if u is not None:
+                for bit in (0, 1):
+                    v = C.solve(u, bit)
+                    if v is not None and E.mine():
+                        read_case(io, "u=" + c, b"\x04" + cb + pc.F.enc(v), member)
+        for cb, c in coord_vals("v"):
+            if E.mine():
+                read_case(io, "v=" + c, full[:1 + n] + cb, member)
+    # first coordinates without a point above them, and random valid first coordinates
+    tries = 0
+    found = 0
+    while found < (6 if quick else 40) and tries < 400:
+        tries += 1
+        cb = rng.getrandbits(8 * n).to_bytes(n, "big")
+        if isinstance(field_top, int):
+            cb = (int.from_bytes(cb, "big") % field_top).to_bytes(n, "big")
+        u = pc.F.dec(cb)
+        if u is None or C.solve(u, 0) is not None or C.solve(u, 1) is not None:
+            continue
+        found += 1
+        for tag in (2, 3):
+            if E.mine():
+                read_case(io, "u-no-root|pack", bytes([tag]) + cb, member)
+        if E.mine():
+            read_case(io, "u-no-root|full", b"\x04" + cb + rng.getrandbits(8 * n).to_bytes(n, "big"), member)
+    for _ in range(20 if quick else 200):
+        if E.mine():
+            read_case(io, "random|pack-length", bytes([rng.choice([2, 3])]) + rng.getrandbits(8 * n).to_bytes(n, "big"), member)
+        if E.mine():
+            read_case(io, "random|full-length", b"\x04" + rng.getrandbits(16 * n).to_bytes(2 * n, "big"), member)
+    for c, bs in special:
+        if E.mine():
+            read_case(io, c, bs, member)
+
+
+def prime_coord_vals(p, n, y_of=None):
+    """wire values of one Fp coordinate: below, at and above p"""
+    top = (1 << (8 * n)) - 1
+
+    def f(kind):
+        vals = [(0, "0"), (1, "1"), (2, "small"), (3, "small"), (p - 1, "p-1"), (p - 2, "p-1"), (p, "p"), (p + 1, "p+1"), (p + 2, "p+1"),
+                ((1 << p.bit_length()) - 1, "2^bits-1"), (top, "all-ones"), ((p - 1) // 2, "half"), ((p + 1) // 2, "half")]
+        return [(v.to_bytes(n, "big"), c) for v, c in vals if v <= top]
+    return f
+
+
+def ep_bit_rule(R, prm):
+    p = R.p
+    if prm["pairf"]:
+        half = (p - 1) // 2
+        return (lambda y: 1 if y > half else 0), "y > (p-1)/2"
+    mont = R.mont
+    return (lambda y: (y * mont % p) & 1), "lsb(y*R mod p)"
+
+
 def run_ep(E):
-    pass
+    ctx, R, rng = E.ctx, E.R, E.rng
+    K = R.K
+    quick = ctx.quick
+    ids = [nm for nm, _ in R.ep_param_ids()]
+    E.notes["parameter_sets"] = ids
+    rules = {}
+    for name in ids:
+        prm = set_prime_curve(R, name)
+        p, n = R.p, K["RLC_FP_BYTES"]
+        bit, rule = ep_bit_rule(R, prm)
+        rules[name] = rule
+        curve = codec.WeierCodec(codec.PrimeCoord(p, n), prm["a"], prm["b"], bit)
+        pc = codec.PointCodec(curve)
+        G = (prm["gx"], prm["gy"])
+        if not curve.on_curve(*G):
+            ctx.fail("ep|%s|generator-off-model-curve" % name, {"a": hx(prm["a"]), "b": hx(prm["b"])})
+            continue
+        W = WCurve(Fp(p), prm["a"], prm["b"])
+        cof1 = prm["h"] == 1
+        members = [G, W.mul(prm["n"] - 1, G), W.mul(2, G)]
+        for _ in range(3 if quick else 12):
+            members.append(W.mul(rng.randrange(1, prm["n"]), G))
+        for _ in range(5 if quick else 30):
+            members.append(W.mul(rng.randrange(2, 1 << 20), G))
+        others = []
+        while len(others) < (6 if quick else 30):
+            x = rng.randrange(p)
+            y = curve.solve(x, rng.randrange(2))
+            if y is not None:
+                others.append((x, y))
+        if cof1:
+            members += others
+            others = []
+        # points of order two: y = 0; only 0x02 || x and 0x04 || x || 0 are canonical
+        special = []
+        for x0 in codec.cubic_roots(prm["a"], prm["b"], p):
+            xb = x0.to_bytes(n, "big")
+            special += [("y=0|pack-bit0", b"\x02" + xb), ("y=0|pack-bit1", b"\x03" + xb), ("y=0|full", b"\x04" + xb + bytes(n))]
+        for P in members[:3]:
+            x, y = P
+            if y + p < (1 << (8 * n)):
+                special.append(("v=y+p", b"\x04" + x.to_bytes(n, "big") + (y + p).to_bytes(n, "big")))
+            if x + p < (1 << (8 * n)):
+                special.append(("u=x+p", b"\x04" + (x + p).to_bytes(n, "big") + y.to_bytes(n, "big")))
+                special.append(("u=x+p", bytes([2 | bit(y)]) + (x + p).to_bytes(n, "big")))
+        special += [("neutral-trailing", bytes(1 + n)), ("neutral-trailing", bytes(1 + 2 * n)), ("neutral-trailing", bytes(2))]
+        E.notes.setdefault("two_torsion_points", {})[name] = len(special and codec.cubic_roots(prm["a"], prm["b"], p))
+        pres = ["ep"] + (["g1"] if name in getattr(R, "TWIST_TYPE", {}) else [])
+        for pre in pres:
+            kind = ("pairf" if prm["pairf"] else "ord") + ("" if cof1 else "-cof")
+            io = EpIO(E, pre, kind, pc, p)
+            io.setname = name
+            point_suite(io, members, others, special, cof1, None, prime_coord_vals(p, n), quick or pre == "g1")
+            R.free(io.P)
+            R.free(io.Q)
+    E.notes["compression_bit_rule"] = rules
+
+
+
+# ==================================================================== pairing groups: ep2 / g2, fp2, fp12 / gt
+class Ep2IO(PointIO):
+    reps = ("affine", "projc", "jacob")
+
+    def __init__(self, E, pre, label, pc, F2):
+        self.sz = E.R.K["sizeof_ep2_st"]
+        self.F2 = F2
+        PointIO.__init__(self, E, pre, label, pc)
+
+    def _put2(self, addr, v):
+        self.R.fp_put(addr, v[0])
+        self.R.fp_put(addr + self.R.fp_sz, v[1])
+
+    def _get2(self, addr):
+        a, ca = self.R.fp_get(addr)
+        b, cb = self.R.fp_get(addr + self.R.fp_sz)
+        return (a, b), ca and cb
+
+    def raw_put(self, P, x, y, z, coord):
+        K = self.R.K
+        self._put2(P + K["off_ep2_st_x"], x)
+        self._put2(P + K["off_ep2_st_y"], y)
+        self._put2(P + K["off_ep2_st_z"], z)
+        self.R.wr_int(P + K["off_ep2_st_coord"], coord)
+
+    def put(self, P, pt, rep="affine"):
+        K, F, rng = self.R.K, self.F2, self.E.rng
+        if pt is None:
+            if rep == "affine":
+                self.raw_put(P, F.zero, F.zero, F.zero, K["BASIC"])
+            else:
+                self.raw_put(P, (rng.randrange(F.p), 1), (2, rng.randrange(F.p)), F.zero, K["PROJC"] if rep == "projc" else K["JACOB"])
+            return
+        x, y = pt
+        if rep == "affine":
+            self.raw_put(P, x, y, F.one, K["BASIC"])
+            return
+        z = (rng.randrange(1, F.p), rng.randrange(F.p))
+        if rep == "projc":
+            self.raw_put(P, F.mul(x, z), F.mul(y, z), z, K["PROJC"])
+        else:
+            z2 = F.mul(z, z)
+            self.raw_put(P, F.mul(x, z2), F.mul(y, F.mul(z2, z)), z, K["JACOB"])
+
+    def get(self, P):
+        K, F = self.R.K, self.F2
+        x, cx = self._get2(P + K["off_ep2_st_x"])
+        y, cy = self._get2(P + K["off_ep2_st_y"])
+        z, cz = self._get2(P + K["off_ep2_st_z"])
+        coord = self.R.rd_int(P + K["off_ep2_st_coord"])
+        canon = cx and cy and cz
+        if F.is_zero(z):
+            return ("inf",), canon
+        if coord == K["BASIC"]:
+            return ("pt", x, y), canon and z == (1, 0)
+        zi = F.inv(z)
+        if coord == K["PROJC"]:
+            return ("pt", F.mul(x, zi), F.mul(y, zi)), canon
+        if coord == K["JACOB"]:
+            zi2 = F.mul(zi, zi)
+            return ("pt", F.mul(x, zi2), F.mul(y, F.mul(zi2, zi))), canon
+        return ("bad", "coord=%d" % coord), False
+
+
+def fp2_coord_vals(p, n):
+    top = (1 << (8 * n)) - 1
+
+    def f(kind):
+        out = []
+        base = [(0, "0"), (1, "1"), (p - 1, "p-1"), (p, "p"), (p + 1, "p+1"), ((1 << p.bit_length()) - 1, "2^bits-1"), (top, "all-ones"),
+                ((p - 1) // 2, "half"), ((p + 1) // 2, "half")]
+        for v, c in base:
+            if v > top:
+                continue
+            out.append((v.to_bytes(n, "big") + (12345 % p).to_bytes(n, "big"), "c0:" + c))
+            out.append(((98765 % p).to_bytes(n, "big") + v.to_bytes(n, "big"), "c1:" + c))
+            if c in ("0", "p", "all-ones"):
+                out.append((v.to_bytes(n, "big") + v.to_bytes(n, "big"), "both:" + c))
+        return out
+    return f
 
 
 def run_px(E):
-    pass
+    import ctypes
+    ctx, R, rng = E.ctx, E.R, E.rng
+    K = R.K
+    quick = ctx.quick
+    names = R.pairing_names()
+    E.notes["parameter_sets"] = names
+    for name in names:
+        prm = R.pairing_set(name)
+        p, n = R.p, K["RLC_FP_BYTES"]
+        qnr = R.L.fp_prime_get_qnr()
+        F2 = codec.Fp2Coord(p, n, qnr)
+        half = (p - 1) // 2
+        kind = "twist"
+
+        def rd2(ptr):
+            return (R.fp_get(ptr)[0], R.fp_get(ptr + R.fp_sz)[0])
+        R.L.ep2_curve_get_a.restype = ctypes.c_void_p
+        R.L.ep2_curve_get_b.restype = ctypes.c_void_p
+        a2, b2 = rd2(R.L.ep2_curve_get_a()), rd2(R.L.ep2_curve_get_b())
+
+        def bit2(y):
+            t = y[1] if y[1] % p else y[0]
+            return 1 if t % p > half else 0
+        curve = codec.WeierCodec(F2, a2, b2, bit2, ext=True)
+        pc = codec.PointCodec(curve)
+        io = Ep2IO(E, "ep2", kind, pc, F2)
+        io.setname = name
+        R.call("ep2_curve_get_gen", io.P)
+        g, ok = io.get(io.P)
+        if g[0] != "pt" or not curve.on_curve(g[1], g[2]):
+            ctx.fail("ep2|%s|generator-off-model-curve" % name, {"a": repr(a2), "b": repr(b2), "gen": repr(g)[:300]})
+            continue
+        G = (g[1], g[2])
+        W = WCurve(F2, a2, b2)
+        members = [G, W.mul(2, G)]
+        for _ in range(4 if quick else 16):
+            members.append(W.mul(rng.randrange(3, 1 << 16), G))
+        others = []
+        while len(others) < (5 if quick else 20):
+            x = (rng.randrange(p), rng.randrange(p))
+            y = curve.solve(x, rng.randrange(2))
+            if y is not None:
+                others.append((x, y))
+        special = [("neutral-trailing", bytes(1 + 2 * n)), ("neutral-trailing", bytes(1 + 4 * n)), ("neutral-trailing", bytes(2))]
+        # points whose ordinate lies in Fp (y1 = 0): x^3 + b = c^2 with c in Fp (twists here have a = 0)
+        y1zero = []
+        if F2.is_zero(a2):
+            tries = 0
+            while len(y1zero) < 2 and tries < 40:
+                tries += 1
+                c = rng.randrange(1, p)
+                x = codec.fp2_cbrt(F2, F2.sub((c * c % p, 0), b2), rng)
+                if x is not None and curve.on_curve(x, (c, 0)):
+                    y1zero.append((x, (c, 0)))
+                    y1zero.append((x, (p - c, 0)))
+        E.notes.setdefault("ep2_points_with_y1_zero", {})[name] = len(y1zero)
+        for pre in ("ep2", "g2"):
+            io2 = Ep2IO(E, pre, kind, pc, F2)
+            io2.setname = name
+            point_suite(io2, members, others, special, False, None, fp2_coord_vals(p, n), quick or pre == "g2")
+            # directed class: ordinate in Fp
+            for P in y1zero:
+                cls = "y1=0|" + ("y0>half" if P[1][0] > half else "y0<=half")
+                if E.mine():
+                    write_case(io2, cls, P, "affine")
+                if E.mine():
+                    read_case(io2, cls + "|pack", pc.encode(P, 1), lambda m: True)
+                if E.mine():
+                    read_case(io2, cls + "|full", pc.encode(P, 0), lambda m: True)
+            R.free(io2.P)
+            R.free(io2.Q)
+        R.free(io.P)
+        R.free(io.Q)
+        run_fp2_packed(E, name, F2)
+        run_fp12_gt(E, name, F2)
+
 
 
 def run_eb(E):
@@ -673,4 +1169,12 @@ def run_eb(E):
 
 
 def run_ed(E):
+    pass
+
+
+def run_fp2_packed(E, name, F2):
+    pass
+
+
+def run_fp12_gt(E, name, F2):
     pass
